@@ -49,6 +49,15 @@ def gen(rng, tier, index):
         st["outcomes"] = {k: v for k, v in st["outcomes"].items() if k in stems and v not in ("wrong", "relabel")}
     plan["writer"] = ("seqs", "db", "json", "seqs")[index % 4]
     plan["logger"] = rng.random() < 0.25
+    # transient failures: these inputs fail in a first, complete pass and succeed in the
+    # second pass (append mode) - the pass that is interrupted and resumed - so that the
+    # retirement of failure records happens inside the interrupted run
+    plan["flaky"] = []
+    if rng.random() < 0.4:
+        names = ["load_unaligned"] + (["min_length"] if plan["min_length"] else []) + ["p"] * len(plan["steps"]) + ["w"]
+        for inp in plan["inputs"]:
+            if c14.predict(plan, inp, names)[0] == "completed" and rng.random() < 0.6:
+                plan["flaky"].append(inp["stem"])
     plan["faults"] = "enumerate"
     plan["errnos"] = rng.randint(0, 5)
     plan["second"] = [rng.randint(0, 60) for _ in range(4)]
@@ -70,11 +79,17 @@ class World:
         self.out_path = os.path.join(self.root, "out")
         self.pid = 5000
 
-    def attempt(self, faults, mode, choices_offset=0):
+    def attempt(self, faults, mode, choices_offset=0, flaky=False):
         """one process lifetime: open store, apply_to.  Returns dict"""
+        import copy
+
         import verif_apps
 
         plan = self.plan
+        if flaky and plan.get("flaky"):
+            plan = copy.deepcopy(plan)
+            for stem in plan["flaky"]:
+                plan["steps"][0]["outcomes"][stem] = "raise"
         sim = simos.SimOS(self.root, faults=faults, dir_order=plan["dir_order"],
                           name_salt=f"p{self.pid}")
         sql = simsql.SimSql(sim, pid=self.pid)
@@ -187,9 +202,14 @@ def run(plan, tier="quick") -> RunResult:
     import cogent3.app.sqlite_data_store  # noqa: F401
 
     # ---- reference ----------------------------------------------------------
+    two_pass = bool(plan.get("flaky"))
+    first_mode = "a" if two_pass else "w"
     w = World(plan)
     try:
-        ref = w.attempt({}, "w")
+        if two_pass:
+            w.attempt({}, "w", flaky=True)  # complete first pass with transient failures
+            res.probe("two-pass-scenario")
+        ref = w.attempt({}, first_mode)
         ref_view = w.view()
         ref_sum = summarise(ref_view, plan)
         ref_events = [e for e in ref["sim"].events if e[0] >= 0]
@@ -250,6 +270,9 @@ def _crash_and_resume(plan, seq, ref_sum, ref_events, res, h, be):
     labels = []
     try:
         mode = "w"
+        if plan.get("flaky"):
+            w.attempt({}, "w", flaky=True)
+            mode = "a"
         crashed_views = []
         for n, fault in enumerate(seq):
             f = {fault["index"]: {k: v for k, v in fault.items() if k != "index"}}
